@@ -702,6 +702,13 @@ def run(ctx: Context) -> None:
                 return ("'_FillValue' in" in t_ or "'missing_value' in" in t_ or ('dtype' in t_ and 'is None' in t_)
                         or (".get('_FillValue') is not None" in t_) or (".get('missing_value') is not None" in t_))
             extra_ = sorted(t_ for t_, pol_ in g if not _expl(t_, pol_))
+            # the type tested is the one that is dropped: encoding['dtype'], under that key
+            ed2flow = ctx.flow(ed2)
+            reads_dtype = any(isinstance(n_, ast.Call) and (dotted(n_.func) or '').endswith('numpy.dtype') and n_.args
+                              and _re5.search(r"encoding\w*(\.get\('dtype'\)|\['dtype'\])", norm_text(ed2flow.resolve(n_.args[0])))
+                              for n_ in ast.walk(ed2.node))
+            if not reads_dtype:
+                extra_ = extra_ + ["the on-disk type is not read from encoding['dtype']"]
             ok = fill_only and promoted and keeps_fill and not extra_
             why = f"del encoding['dtype'] under {sorted(texts)}" + (f"; further conditions {extra_[:2]}" if extra_ else '')
         ctx.check('R05.3', ok, "with 'fill', variables promoted to floating point to hold the misses do not keep an integer on-disk dtype without a fill value (saving would turn the missing values into numbers)", ed2,
@@ -769,6 +776,7 @@ from ..variants import V  # noqa: E402
 _B = 'src/emsarray/conventions/_base.py'
 _P = 'src/emsarray/operations/point_extraction.py'
 VARIANTS = [
+    V('C05', 'promoted-type-read-under-another-key', 'src/emsarray/operations/point_extraction.py', "            encoded_dtype = variable.encoding.get('dtype')\n", "            encoded_dtype = variable.encoding.get('dtyp')\n", 'R05.3'),
     V('C05', 'promoted-kept-only-with-missing-value', 'src/emsarray/operations/point_extraction.py', "                and 'missing_value' not in variable.encoding\n", "                and 'missing_value' in variable.encoding\n", 'R05.3'),
     V('C05', 'custom-point-dimension-discarded', 'src/emsarray/conventions/_base.py', "        if point_dimension is None:\n            point_dimension = utils.find_unused_dimension(self.dataset, 'point')", "        if point_dimension is not None:\n            point_dimension = utils.find_unused_dimension(self.dataset, 'point')", 'R05.9'),
     V('C05', 'select-points-policy-not-forwarded', 'src/emsarray/conventions/_base.py', "self.dataset, points, point_dimension=point_dimension, missing_points=missing_points)", "self.dataset, points, point_dimension=point_dimension)", 'R05.9'),
